@@ -30,6 +30,7 @@ type built struct {
 	CipherW   int64 // ciphertext bytes written to / read from the dialled connection (whole connection)
 	CipherR   int64
 	CipherWN  int64 // number of writes on the dialled connection in the tunnel phase
+	LCSched   []int // sizes the proxy's Reads on the client connection returned up to the reply
 	TReq      int64 // time of the proxy's first read on the client connection (lower bound of readRequest's t0)
 	TResp     int64 // time of its last read before the reply (lower bound of writeResponse's time.Now())
 	Inferred  int
@@ -67,6 +68,7 @@ func buildTrace(sc *scenario) built {
 				b.TReq = e.T
 			}
 			b.TResp = e.T
+			b.LCSched = append(b.LCSched, e.N)
 			r0 += int64(e.N)
 		case e.Who == "DC" && e.Op == "R":
 			r0f += int64(e.N)
